@@ -58,8 +58,15 @@ class C13(Check):
             spec['edges'] = [e for e in spec['edges'] if e[0].split('/')[0] in keep and e[1].split('/')[0] in keep]
             pool = 'P'
         else:
+            libs = ('lin', 'sat', 'osc', 'leak')
+            tab = stratum in ('S-opname', 'S-all') and rng.random() < 0.35
+            if tab:
+                libs = ('tab', 'lin')   # operators carrying a large array constant (cache keys must see all of it)
             spec = models.gen_net(rng, n_nodes=rng.randint(1, 4), uniq=uniq, max_edges=4,
-                                  libs=('lin', 'sat', 'osc', 'leak'), hier=rng.random() < 0.15)
+                                  libs=libs, hier=rng.random() < 0.15, build='python' if tab else None)
+            for o in spec['ops'].values():
+                if o['lib'] == 'tab':
+                    o['defaults']['wmid'] = float(rng.choice([1500, 3000, -1500, 750]))
             if stratum in ('S-opname', 'S-all') and not uniq and rng.random() < 0.5:
                 # same operator NAME for different equations/defaults in different workflows
                 for k, o in spec['ops'].items():
